@@ -526,3 +526,141 @@ def expanded(expr, fn_node, _defs=None, _depth=0):
 def xtext(expr, fn_node) -> str:
     """Text of the alias-expanded expression (for comparisons that must not depend on temporaries)."""
     return unparse(expanded(expr, fn_node))
+
+
+# ---------------------------------------------------------------------------------------------------------------------
+# row-table loops: `for a, b, c in ROWS: if test(a): call(b, *c); break` [`else: rest`] over a LITERAL table of rows
+# ---------------------------------------------------------------------------------------------------------------------
+def unroll_row_loops(fn_node, max_rows: int = 64):
+    """A copy of the function in which every loop over a literal table of rows is unrolled, each row's elements put in
+    place of the loop targets — so that a dispatch written as a row table (`(names, writer, args, kwargs)` rows walked by
+    a `for .. else`) reads as the if / elif chain it is.  Only two body shapes are unrolled, everything else is left as
+    it is (the caller's analysis then decides as before):
+
+      * the body is one `if TEST: ...; break` (no `else`, no other break / continue): nested `if TEST_k: ... else: <next row>`,
+        the loop's `else:` clause becoming the innermost `else`;
+      * the body has no break / continue at all: the bodies in sequence, then the `else:` clause.
+
+    The table is the iterable itself (a tuple / list display) or a local bound exactly once to one; every row must be a
+    tuple / list display with as many elements as the loop has targets, and no target may be re-bound in the body.
+    Returns (new node, number of loops unrolled); the input is not modified."""
+    import copy
+
+    defs = single_assignments(fn_node)
+    done = [0]
+
+    def rows_of(it):
+        if isinstance(it, ast.Name):
+            it = defs.get(it.id)
+        if not isinstance(it, (ast.Tuple, ast.List)) or not (0 < len(it.elts) <= max_rows):
+            return None
+        return it.elts
+
+    def subst(stmts, env):
+        class S(ast.NodeTransformer):
+            def visit_Name(self, n):
+                if isinstance(n.ctx, ast.Load) and n.id in env:
+                    return ast.copy_location(copy.deepcopy(env[n.id]), n)
+                return n
+
+            def visit_Starred(self, n):
+                self.generic_visit(n)
+                return n
+
+        out = [S().visit(copy.deepcopy(s)) for s in stmts]
+        # f(*(<a>, <b>)) -> f(<a>, <b>) ;  f(**{}) -> f()  (what the substitution leaves behind)
+        for s in out:
+            for c in ast.walk(s):
+                if isinstance(c, ast.Call):
+                    args = []
+                    for a in c.args:
+                        if isinstance(a, ast.Starred) and isinstance(a.value, (ast.Tuple, ast.List)) \
+                                and not any(isinstance(e, ast.Starred) for e in a.value.elts):
+                            args.extend(a.value.elts)
+                        else:
+                            args.append(a)
+                    c.args = args
+                    c.keywords = [k for k in c.keywords
+                                  if not (k.arg is None and isinstance(k.value, ast.Dict) and not k.value.keys)]
+        return out
+
+    def jumps(stmts):
+        found = []
+
+        def walk(n, in_loop):
+            for ch in ast.iter_child_nodes(n):
+                if isinstance(ch, (ast.FunctionDef, ast.AsyncFunctionDef, ast.Lambda, ast.ClassDef)):
+                    continue
+                if isinstance(ch, (ast.Break, ast.Continue)) and not in_loop:
+                    found.append(ch)
+                walk(ch, in_loop or isinstance(ch, (ast.For, ast.While, ast.AsyncFor)))
+
+        for s in stmts:
+            if isinstance(s, (ast.Break, ast.Continue)):
+                found.append(s)
+            else:
+                walk(s, isinstance(s, (ast.For, ast.While, ast.AsyncFor)))
+        return found
+
+    class U(ast.NodeTransformer):
+        def visit_For(self, n):
+            self.generic_visit(n)
+            tg = n.target
+            names = [tg] if isinstance(tg, ast.Name) else (list(tg.elts) if isinstance(tg, (ast.Tuple, ast.List)) else None)
+            if not names or not all(isinstance(x, ast.Name) for x in names):
+                return n
+            rows = rows_of(n.iter)
+            if rows is None or not getattr(n, "_row_ok", False):
+                return n
+            ids = [x.id for x in names]
+            envs = []
+            for r in rows:
+                if isinstance(tg, ast.Name):
+                    envs.append({ids[0]: r})
+                elif isinstance(r, (ast.Tuple, ast.List)) and len(r.elts) == len(ids) \
+                        and not any(isinstance(e, ast.Starred) for e in r.elts):
+                    envs.append(dict(zip(ids, r.elts)))
+                else:
+                    return n
+            for s in n.body + n.orelse:
+                for x in ast.walk(s):
+                    if isinstance(x, ast.Name) and x.id in ids and not isinstance(x.ctx, ast.Load):
+                        return n
+            js = jumps(n.body)
+            if not js:
+                out = []
+                for env in envs:
+                    out += subst(n.body, env)
+                out += copy.deepcopy(n.orelse)
+                done[0] += 1
+                return [ast.copy_location(s, n) if not hasattr(s, "lineno") else s for s in out] or [ast.copy_location(ast.Pass(), n)]
+            if len(n.body) == 1 and isinstance(n.body[0], ast.If) and not n.body[0].orelse and len(js) == 1 \
+                    and n.body[0].body and js[0] is n.body[0].body[-1] and isinstance(js[0], ast.Break):
+                inner = n.body[0]
+                tail = copy.deepcopy(n.orelse)
+                for env in reversed(envs):
+                    test = subst([ast.Expr(value=inner.test)], env)[0].value
+                    body = subst(inner.body[:-1], env) or [ast.copy_location(ast.Pass(), inner)]
+                    tail = [ast.copy_location(ast.If(test=test, body=body, orelse=tail), inner)]
+                done[0] += 1
+                return tail
+            return n
+
+    work = copy.deepcopy(fn_node)
+    # a target read outside its loop keeps the last row's value there: not modelled, such a loop is left alone
+    total: dict = {}
+    for x in ast.walk(work):
+        if isinstance(x, ast.Name) and isinstance(x.ctx, ast.Load):
+            total[x.id] = total.get(x.id, 0) + 1
+    for lp in ast.walk(work):
+        if isinstance(lp, ast.For):
+            inside: dict = {}
+            for x in ast.walk(lp):
+                if isinstance(x, ast.Name) and isinstance(x.ctx, ast.Load):
+                    inside[x.id] = inside.get(x.id, 0) + 1
+            tids = [x.id for x in ast.walk(lp.target) if isinstance(x, ast.Name)]
+            lp._row_ok = all(total.get(t, 0) == inside.get(t, 0) for t in tids)
+    new = U().visit(work)
+    if done[0]:
+        ast.fix_missing_locations(new)
+    return new, done[0]
